@@ -135,7 +135,7 @@ theorem louvain_fit_valid {argsort : List Int → List Nat} (hs : ∀ key, IsArg
     (hidx : shuffle = true → index.Perm (List.range N)) :
     louvainFit argsort kernel nAgg fuel N index sortClusters shuffle bipartite nRow = .ok none ∨
     ∃ f count, louvainFit argsort kernel nAgg fuel N index sortClusters shuffle bipartite nRow = .ok (some (f, count)) ∧
-      ValidClustering N (allLabels f) sortClusters :=
+      ValidClustering N (allLabels f) sortClusters ∧ f = splitVars bipartite nRow (allLabels f) :=
   louvainFit_spec hs hk nAgg fuel hN sortClusters shuffle bipartite nRow hidx
 
 /-- ★ Leiden: same statement; the refinement kernel must keep every refined cluster inside one cluster of the
@@ -147,8 +147,18 @@ theorem leiden_fit_valid {argsort : List Int → List Nat} (hs : ∀ key, IsArgs
     (hidx : shuffle = true → index.Perm (List.range N)) :
     leidenFit argsort kernel refine nAgg fuel N index sortClusters shuffle bipartite nRow = .ok none ∨
     ∃ f count, leidenFit argsort kernel refine nAgg fuel N index sortClusters shuffle bipartite nRow
-        = .ok (some (f, count)) ∧ ValidClustering N (allLabels f) sortClusters :=
+        = .ok (some (f, count)) ∧ ValidClustering N (allLabels f) sortClusters ∧
+      f = splitVars bipartite nRow (allLabels f) :=
   leidenFit_spec hs hk nAgg fuel hN sortClusters shuffle bipartite nRow hidx
+
+/-- with a positive `n_aggregations` the fuel `n_aggregations` suffices: the loop of `Louvain.fit` stops by its
+    counter (termination in general rests on the kernel's modularity increase — C17) -/
+theorem louvain_fuel_suffices {kernel : Nat → Nat → List Int × Bool} {nAgg : Int} (hk : KernelLen kernel)
+    {N : Nat} (hN : 0 < N) (hpos : 0 < nAgg) :
+    louvainLoop kernel nAgg nAgg.toNat 0 N (identity N) ≠ .ok none := by
+  rw [identity_eq]
+  exact louvainLoop_fuel_nAgg hk nAgg.toNat 0 N (List.range N) hN
+    ⟨fun x hx => List.mem_range.mp hx, fun c hc => List.mem_range.mpr hc⟩ (by simpa using hpos) (by omega)
 
 /-- ★ `_post_processing` alone, with the relation between the final labels and the clusters found: the output
     induces the partition of the composed membership, read through the shuffling permutation -/
@@ -158,6 +168,7 @@ theorem post_processing_valid {argsort : List Int → List Nat} (hs : ∀ key, I
     (hidx : shuffle = true → index.Perm (List.range N)) :
     ∃ f, postProcess argsort (ofLabels a k) index sortClusters shuffle bipartite nRow = .ok f ∧
       ValidClustering N (allLabels f) sortClusters ∧
+      f = splitVars bipartite nRow (allLabels f) ∧
       ∃ L, SamePartition a L ∧
         (if shuffle then ∀ j, j < N → (allLabels f)[index.getD j 0]? = L[j]? else allLabels f = L) :=
   postProcess_spec hs hN hc sortClusters shuffle bipartite nRow hidx
@@ -236,6 +247,86 @@ example : secondarySquare exA 3 [0, 1, 0] true true
     = .ok ⟨some [[1/3, 2/3], [1, 0], [0, 0]], none, none, some [[1, 2], [1/2, 0]]⟩ := by decide +kernel
 example : (∀ row ∈ exA, ∀ e ∈ row, e.1 < 3) ∧ (∀ row ∈ exA, ∀ e ∈ row, (0 : Rat) ≤ e.2) := by decide +kernel
 
+/-- ★ labels and secondary outputs together (the dispatcher `_secondary_outputs` on what `_split_vars` produced):
+    for a valid clustering `L` of the `N` nodes and an input with non-negative weights of matching shape
+    (`N × N`; or `n_row × n_col`, `N = n_row + n_col`), `_secondary_outputs` never raises and `SecondaryOK` holds
+    (absent when not asked; soft memberships; aggregate = sums between clusters with the total weight). -/
+theorem secondary_outputs_valid {a : SpMat} {nCol N : Nat} {L : List Nat} {sorted : Bool} (bipartite : Bool)
+    (nRow : Nat) (hv : ValidClustering N L sorted)
+    (hshape : if bipartite then a.length = nRow ∧ N = nRow + nCol ∧ 0 < nRow ∧ 0 < nCol
+              else a.length = N ∧ nCol = N ∧ 0 < N)
+    (hcols : ∀ row ∈ a, ∀ e ∈ row, e.1 < nCol) (hw : ∀ row ∈ a, ∀ e ∈ row, 0 ≤ e.2) (rp ra : Bool) :
+    ∃ s, secondary a nCol (splitVars bipartite nRow L) bipartite rp ra = .ok s ∧
+      SecondaryOK a nCol (splitVars bipartite nRow L) bipartite rp ra s :=
+  secondary_of_valid bipartite nRow hv hshape hcols hw rp ra
+
+/-- ★★ the statement of C05 for Louvain, end to end on the model: whatever the kernel returns (one label per
+    node), whatever sorting permutation `argsort` returns, for every shuffling permutation, every option and every
+    input with non-negative weights: `fit` does not raise, `labels_` is a valid clustering (sorted by size iff
+    `sort_clusters`) and the secondary outputs are consistent with it. -/
+theorem louvain_outputs_valid {argsort : List Int → List Nat} (hs : ∀ key, IsArgsort key (argsort key))
+    {kernel : Nat → Nat → List Int × Bool} (hk : KernelLen kernel) (nAgg : Int) (fuel : Nat) {N : Nat}
+    (sortClusters shuffle bipartite : Bool) (nRow : Nat) {index : List Nat}
+    (hidx : shuffle = true → index.Perm (List.range N))
+    {a : SpMat} {nCol : Nat}
+    (hshape : if bipartite then a.length = nRow ∧ N = nRow + nCol ∧ 0 < nRow ∧ 0 < nCol
+              else a.length = N ∧ nCol = N ∧ 0 < N)
+    (hcols : ∀ row ∈ a, ∀ e ∈ row, e.1 < nCol) (hw : ∀ row ∈ a, ∀ e ∈ row, 0 ≤ e.2) (rp ra : Bool) :
+    louvainFit argsort kernel nAgg fuel N index sortClusters shuffle bipartite nRow = .ok none ∨
+    ∃ f count s, louvainFit argsort kernel nAgg fuel N index sortClusters shuffle bipartite nRow = .ok (some (f, count)) ∧
+      ValidClustering N (allLabels f) sortClusters ∧
+      secondary a nCol f bipartite rp ra = .ok s ∧ SecondaryOK a nCol f bipartite rp ra s := by
+  have hN : 0 < N := by
+    cases bipartite <;> simp at hshape <;> omega
+  rcases louvainFit_spec hs hk nAgg fuel hN sortClusters shuffle bipartite nRow hidx with h | ⟨f, c, h, hv, hsplit⟩
+  · exact Or.inl h
+  · obtain ⟨s, hs1, hs2⟩ := secondary_of_valid bipartite nRow hv hshape hcols hw rp ra
+    rw [← hsplit] at hs1 hs2
+    exact Or.inr ⟨f, c, s, h, hv, hs1, hs2⟩
+
+/-- ★★ the same for Leiden -/
+theorem leiden_outputs_valid {argsort : List Int → List Nat} (hs : ∀ key, IsArgsort key (argsort key))
+    {kernel : Nat → List Nat → List Int × Bool} {refine : Nat → List Nat → List Int}
+    (hk : LeidenContract kernel refine) (nAgg : Int) (fuel : Nat) {N : Nat}
+    (sortClusters shuffle bipartite : Bool) (nRow : Nat) {index : List Nat}
+    (hidx : shuffle = true → index.Perm (List.range N))
+    {a : SpMat} {nCol : Nat}
+    (hshape : if bipartite then a.length = nRow ∧ N = nRow + nCol ∧ 0 < nRow ∧ 0 < nCol
+              else a.length = N ∧ nCol = N ∧ 0 < N)
+    (hcols : ∀ row ∈ a, ∀ e ∈ row, e.1 < nCol) (hw : ∀ row ∈ a, ∀ e ∈ row, 0 ≤ e.2) (rp ra : Bool) :
+    leidenFit argsort kernel refine nAgg fuel N index sortClusters shuffle bipartite nRow = .ok none ∨
+    ∃ f count s, leidenFit argsort kernel refine nAgg fuel N index sortClusters shuffle bipartite nRow
+        = .ok (some (f, count)) ∧
+      ValidClustering N (allLabels f) sortClusters ∧
+      secondary a nCol f bipartite rp ra = .ok s ∧ SecondaryOK a nCol f bipartite rp ra s := by
+  have hN : 0 < N := by
+    cases bipartite <;> simp at hshape <;> omega
+  rcases leidenFit_spec hs hk nAgg fuel hN sortClusters shuffle bipartite nRow hidx with h | ⟨f, c, h, hv, hsplit⟩
+  · exact Or.inl h
+  · obtain ⟨s, hs1, hs2⟩ := secondary_of_valid bipartite nRow hv hshape hcols hw rp ra
+    rw [← hsplit] at hs1 hs2
+    exact Or.inr ⟨f, c, s, h, hv, hs1, hs2⟩
+
+/-- ★★ and for PropagationClustering: for any labels left by the sweeps (one per node of the block adjacency) -/
+theorem propagation_outputs_valid {argsort : List Int → List Nat} (hs : ∀ key, IsArgsort key (argsort key))
+    (raw : List Int) (sortClusters bipartite : Bool) (nRow : Nat) {a : SpMat} {nCol : Nat}
+    (hshape : if bipartite then a.length = nRow ∧ raw.length = nRow + nCol ∧ 0 < nRow ∧ 0 < nCol
+              else a.length = raw.length ∧ nCol = raw.length ∧ 0 < raw.length)
+    (hcols : ∀ row ∈ a, ∀ e ∈ row, e.1 < nCol) (hw : ∀ row ∈ a, ∀ e ∈ row, 0 ≤ e.2) (rp ra : Bool) :
+    ValidClustering raw.length (allLabels (propagationPost argsort raw sortClusters bipartite nRow)) sortClusters ∧
+    ∃ s, secondary a nCol (propagationPost argsort raw sortClusters bipartite nRow) bipartite rp ra = .ok s ∧
+      SecondaryOK a nCol (propagationPost argsort raw sortClusters bipartite nRow) bipartite rp ra s := by
+  have hv := (propagationPost_spec hs raw sortClusters bipartite nRow).1
+  refine ⟨hv, ?_⟩
+  have hsplit : propagationPost argsort raw sortClusters bipartite nRow =
+      splitVars bipartite nRow (allLabels (propagationPost argsort raw sortClusters bipartite nRow)) := by
+    conv_rhs => rw [show propagationPost argsort raw sortClusters bipartite nRow =
+      splitVars bipartite nRow (sortedLabels argsort sortClusters (inverse raw)) from rfl, allLabels_splitVars]
+    rfl
+  obtain ⟨s, h1, h2⟩ := secondary_of_valid bipartite nRow hv hshape hcols hw rp ra
+  rw [← hsplit] at h1 h2
+  exact ⟨s, h1, h2⟩
+
 /-! ## 7. KCenters -/
 
 /-- ★ `_init_centers`: `n_clusters` distinct centres inside the admissible mask, whatever the random choices and
@@ -258,6 +349,39 @@ theorem kcenters_centers {nClusters nInit : Int} {bipartite : Bool} {nRow nCol :
     KCentersOK bipartite nRow nCol pos nClusters.toNat (allLabelsK k) k.centers ∧
     (bipartite = true → CentersSplitOK nRow pos k.centers k.centersRow k.centersCol) :=
   kcentersFit_spec h hruns
+
+/-- the assignment loop of a restart runs its body exactly once when `max_iter ≥ 1` (the loop never replaces
+    `centers`, so the second test `prev_centers == centers` stops it) and never otherwise -/
+theorem kcenters_one_assignment (classify : List Nat → List Nat) (maxIter : Int) {centers : List Nat}
+    (hne : centers ≠ []) (fuel : Nat) :
+    kcentersAssign classify maxIter centers (fuel + 2) none none 0 =
+      some (if 1 ≤ maxIter then (some (classify centers), 1) else (none, 0)) :=
+  kcentersAssign_eq classify maxIter hne fuel
+
+/-- ★★ the whole of `KCenters.fit` on the model (checks, restarts with their random choices, assignment loop,
+    selection of the best restart, bookkeeping): if it returns, the k-centers clause of C05 holds, `max_iter ≥ 1`
+    and exactly one assignment per restart was computed -/
+theorem kcenters_fit_valid {nClusters nInit maxIter : Int} {bipartite : Bool} {nRow nCol : Nat} {pos : CenterPos}
+    {chooseOf : Nat → Nat → List Nat → Nat} {classify : Nat → List Nat → List Nat} {idxMax : Nat}
+    {k : KFitted} {calls : Nat}
+    (h : kcentersFitFull nClusters nInit maxIter bipartite nRow nCol pos chooseOf classify idxMax = .ok (k, calls))
+    (hch : ∀ i, ChoiceOK (chooseOf i))
+    (hcl : ∀ i centers, (classify i centers).length = (if bipartite then nRow + nCol else nRow) ∧
+      ∀ l ∈ classify i centers, l < nClusters.toNat) :
+    KCentersOK bipartite nRow nCol pos nClusters.toNat (allLabelsK k) k.centers ∧
+    (bipartite = true → CentersSplitOK nRow pos k.centers k.centersRow k.centersCol) ∧
+    1 ≤ maxIter ∧ calls = nInit.toNat :=
+  kcentersFitFull_spec h hch hcl
+
+example : kcentersFitFull 2 2 20 true 2 3 .col (fun i t cand => cand.getD ((i + t) % cand.length) 0)
+    (fun i _ => if i = 0 then [0, 0, 1, 1, 0] else [1, 0, 1, 0, 0]) 1
+    = .ok (⟨[1, 0], some [1, 0], some [1, 0, 0], [3, 2], none, some [1, 0]⟩, 2) := by decide
+example : ∀ i : Nat, ChoiceOK (fun t cand => cand.getD ((i + t) % cand.length) 0) := by
+  intro i t cand h
+  have hpos : 0 < cand.length := List.length_pos_iff.mpr h
+  have hlt : (i + t) % cand.length < cand.length := Nat.mod_lt _ hpos
+  simp only [List.getD_eq_getElem?_getD, List.getElem?_eq_getElem hlt, Option.getD_some]
+  exact List.getElem_mem hlt
 
 -- non-vacuity: a choice function (first candidate), a 2x3 biadjacency with centres on both sides
 example : ChoiceOK (fun _ cand => cand.headD 0) := by
